@@ -41,6 +41,7 @@ func (c09) Assumptions() []string {
 func (c09) Gates(tier string, m map[string]int64) []rt.Gate {
 	gs := []rt.Gate{
 		rt.GateMin("stores with integers beyond 2^53 under collecting/comparing aggregates", m, "bigint_values", 100),
+		rt.GateMin("stores with integers around 2^53 under sum/avg", m, "mid_integer_values", 100),
 		rt.GateMin("filters that use a GROUP BY field by name", m, "group_field_named_in_where", 200),
 		rt.GateMin("stores whose keys contain NUL bytes (tuples colliding under a NUL separator)", m, "store_with_nul_bytes", 100),
 		rt.GateMin("aggregate statements judged", m, "judged", 2000),
@@ -117,6 +118,11 @@ func (k c09) Run(c *rt.Ctx) {
 	part := func(i int64) *gen.Node { return gen.IndexI(gen.Call("split", gen.Key(), gen.Str("|")), i) }
 	gpool := []*gen.Node{part(0), part(1), gen.Value(), gen.Call("upper", part(0)), gen.Call("strlen", part(1)), gen.Call("int", part(0)), gen.Call("int", part(1)),
 		gen.Bin("+", part(0), part(1)), gen.Bin(">", gen.Call("strlen", part(0)), gen.Int(1)), gen.Call("strlen", gen.Value())}
+	if floats {
+		// float-valued grouping expressions: several groups whose shown values differ
+		gpool = append(gpool, gen.Call("float", gen.Value()), gen.Bin("*", gen.Call("float", gen.Value()), gen.Float("0.5")),
+			gen.Call("float", gen.Value()), gen.Bin("+", gen.Call("float", gen.Value()), gen.Float("0.25")))
+	}
 	ng := r.Range(0, 3)
 	if r.Chance(1, 2) {
 		ng = 2
@@ -217,6 +223,18 @@ func (k c09) Run(c *rt.Ctx) {
 		numArg = func() *gen.Node { return gen.Call("int", gen.Value()) }
 		bigints = true
 		c.Rec.Inc("bigint_values")
+	}
+	if !floats && !implicit && !bigints && r.Chance(1, 12) {
+		// integers around 2^53 whose sums still fit: sum is exact and avg is the exact sum divided
+		// once, not a running float (2^53+1 three times: the float sum has lost 3 by then)
+		mid := []string{"9007199254740993", "9007199254740995", "4503599627370497", "9007199254740991", "-9007199254740993", "3", "1"}
+		for i := range pairs {
+			if i%4 != 2 {
+				pairs[i].V = mid[r.Intn(len(mid))]
+			}
+		}
+		numArg = func() *gen.Node { return gen.Call("int", gen.Value()) }
+		c.Rec.Inc("mid_integer_values")
 	}
 	var aggs []c09Agg
 	na := r.Range(1, 4)
